@@ -254,9 +254,12 @@ def run_case(c):
             raise Violation("authorization-message-text", "image %d: %r" % (i, out[-300:]))
     pubs = []
     for run in (1, 2):
-        for p in paths:
-            if os.path.exists(p + ".sig"):
-                os.unlink(p + ".sig")
+        for j, p in enumerate(paths):
+            # what an earlier build left behind stays where it is: the signature file of the
+            # first run, or (every other image, first run) a longer left-over file
+            if run == 1 and j % 2 == 0:
+                with open(p + ".sig", "wb") as f:
+                    f.write(b"30" + b"ab" * 150)
         code, out, written, keys, pub_path = one_time_run(d, paths, run)
         if code != 0:
             raise Violation("signonetime-failed", "exit %r output %r" % (code, out[-300:]))
@@ -285,6 +288,9 @@ def run_case(c):
             blobs[p + ".sig"] = sig_hex
             try:
                 sig = bytes.fromhex(sig_hex.decode())
+                if len(sig) < 8 or sig[0] != 0x30 or sig[1] + 2 != len(sig):
+                    raise ValueError("not one DER signature: %d bytes, header %s" % (
+                        len(sig), sig[:2].hex()))
                 ok = verify_libsecp(pub, hsh, sig)
             except Exception as e:
                 raise Violation("signature-file-format", "%s: %r" % (e, sig_hex[:100]))
